@@ -359,6 +359,10 @@ func checkLog(evs []fEvent, rq *c06Req) (string, string) {
 
 func genBehs(r *core.Rand, max int) []int {
 	n := r.Intn(max + 1)
+	if r.Chance(1, 25) {
+		// long chains: counts just beyond powers of two
+		n = []int{9, 17, 33, 65}[r.Intn(4)]
+	}
 	out := make([]int, n)
 	for i := range out {
 		if r.Chance(1, 2) {
@@ -372,7 +376,7 @@ func genBehs(r *core.Rand, max int) []int {
 
 func c06(ctx *core.Ctx) {
 	quietLogs()
-	ctx.Rule("generated configurations: 0-5 container filters, two WebServices with 0-3 service filters, two routes and a pair of representation twins (same method and path, JSON vs XML) with 0-3 route filters each, every filter named after its owner, behaviour per filter in {pass, set attribute, replace Request, replace Response, replace http.Request (derived or on a fresh context), HttpMiddlewareHandlerToFilter around a wrapping middleware, set ResponseWriter}; any filter short-circuits on demand of the request; service / container filters registered before or after the routes / services; handlers that panic (recovery on: nothing in the chain may run a second time). 40-request sequences (routed, 404/405 routing failures, HandleWithFilter) run sequentially on one container and then from 16 goroutines (race detector on). Offline checker per request: exact enter/pass/exit sequence = prefix of [container.., service.., route.., handler] with reversed exits, each once, hand-over identity of (Request, Response, http.Request, writer, attributes). Non-trivial = a request whose chain has >= 2 elements; distinct by (filter counts per level, short-circuit position, request kind, behaviours on the path).")
+	ctx.Rule("generated configurations: 0-5 container filters (now and then 9, 17, 33 or 65 at a level), two WebServices with 0-3 service filters, two routes and a pair of representation twins (same method and path, JSON vs XML) with 0-3 route filters each, every filter named after its owner, behaviour per filter in {pass, set attribute, replace Request, replace Response, replace http.Request (derived or on a fresh context), HttpMiddlewareHandlerToFilter around a wrapping middleware, set ResponseWriter}; any filter short-circuits on demand of the request; service / container filters registered before or after the routes / services; handlers that panic (recovery on: nothing in the chain may run a second time). 40-request sequences (routed, 404/405 routing failures, HandleWithFilter) run sequentially on one container and then from 16 (every 5th configuration: 70) goroutines (race detector on). Offline checker per request: exact enter/pass/exit sequence = prefix of [container.., service.., route.., handler] with reversed exits, each once, hand-over identity of (Request, Response, http.Request, writer, attributes). Non-trivial = a request whose chain has >= 2 elements; distinct by (filter counts per level, short-circuit position, request kind, behaviours on the path).")
 	ctx.Assume("a filter that replaces the Request copies the attributes it knows about (the API offers no enumeration)")
 	configs := ctx.N(250, 20000)
 	for ci := 0; ci < configs; ci++ {
@@ -546,7 +550,11 @@ func c06(ctx *core.Ctx) {
 		// the same list from 16 goroutines
 		var wg sync.WaitGroup
 		start := make(chan struct{})
-		for g := 0; g < 16; g++ {
+		workers := 16
+		if ci%10 == 3 || ci%10 == 8 {
+			workers = 70
+		}
+		for g := 0; g < workers; g++ {
 			wg.Add(1)
 			go func(g int) {
 				defer wg.Done()
@@ -559,7 +567,7 @@ func c06(ctx *core.Ctx) {
 		}
 		close(start)
 		wg.Wait()
-		ctx.Count("concurrent_requests", 16*len(reqs)/4)
+		ctx.Count("concurrent_requests", workers*len(reqs)/4)
 		for _, b := range cfg.Container {
 			ctx.SetAdd("behaviours_seen", behName[b])
 		}
